@@ -18,7 +18,8 @@ CARGO_TARGET_DIR=$B/feat-std cargo build --offline --quiet --no-default-features
 CARGO_TARGET_DIR=$B/feat-std+macros cargo build --offline --quiet --no-default-features --features std,macros --bin mon 2>/dev/null &
 wait
 CARGO_TARGET_DIR=$B/feat-std+macros+par_iter+deser cargo build --offline --quiet --no-default-features --features std,macros,par_iter,deser --bin mon 2>/dev/null &
-( cd typecheck && CARGO_TARGET_DIR=$B/typecheck cargo +nightly build --offline --quiet --features freeze 2>/dev/null ) &
+( cd typecheck && CARGO_TARGET_DIR=$B/typecheck cargo +nightly build --offline --quiet --features freeze 2>/dev/null; CARGO_TARGET_DIR=$B/typecheck-nostd cargo +nightly build --offline --quiet --no-default-features --features freeze 2>/dev/null ) &
+RUSTFLAGS="-Zsanitizer=address -Cforce-frame-pointers=yes" CARGO_TARGET_DIR=$B/asan cargo +nightly build --offline --quiet --target x86_64-unknown-linux-gnu --bin mon 2>/dev/null &
 CARGO_TARGET_DIR=$B/forbid cargo rustc --manifest-path /repo/indextree/Cargo.toml --lib --offline --quiet -- -F unsafe_code 2>/dev/null &
 wait
 )
@@ -35,7 +36,8 @@ cd harness/macrogen
 IXV_GENERATED=$B/macrogen-src/warm.rs CARGO_TARGET_DIR=$B/macrogen-0 cargo build --offline --quiet 2>/dev/null &
 IXV_GENERATED=$B/macrogen-src/warm.rs CARGO_TARGET_DIR=$B/macrogen-miri MIRIFLAGS="-Zmiri-disable-isolation" cargo +nightly miri run --offline --quiet >/dev/null 2>&1 &
 cd ..
-CARGO_TARGET_DIR=$B/miri MIRIFLAGS="-Zmiri-disable-isolation -Zmiri-tree-borrows -Zmiri-ignore-leaks" cargo +nightly miri run --offline --quiet --features par_iter --bin readers -- --arenas 1 --threads 2 --len 10 --max-live 4 --reps 1 >/dev/null 2>&1 &
+CARGO_TARGET_DIR=$B/miri MIRIFLAGS="-Zmiri-disable-isolation -Zmiri-tree-borrows -Zmiri-ignore-leaks" cargo +nightly miri run --offline --quiet --features par_iter --bin readers -- --arenas 1 --threads 2 --len 10 --max-live 4 --reps 1 >/dev/null 2>&1
+CARGO_TARGET_DIR=$B/miri MIRIFLAGS="-Zmiri-disable-isolation" cargo +nightly miri run --offline --quiet --bin mon -- --prop C11 --threads 1 --small 0 --large 0 --w2n 1 --no-w3 >/dev/null 2>&1 &
 wait
 )
 test -x .build/main/debug/mon && test -x .build/main/release/mon || { echo "setup: harness build failed"; exit 1; }
